@@ -108,7 +108,7 @@ SPECIAL = {
     'ED_Solver': Entry(points=pts1(-0.02, 0.02), t=lambda rng: rng.uniform(0.0, 1e-9)),
     'nED_Solver': Entry(points=pts1(-0.02, 0.02), t=lambda rng: rng.uniform(0.0, 1e-9)),
     'ie_Solver': Entry(points=pts1(-0.02, 0.02), t=lambda rng: rng.uniform(0.0, 1e-9)),
-    'GenEOS_Solver': Entry(slow=True, points=pts1(0.05, 0.95), t=lambda rng: 0.25, min_n=2),
+    'GenEOS_Solver': Entry(slow=True, points=pts1(0.05, 0.95), t=lambda rng: rng.uniform(0.1, 0.25), min_n=2),
     'IGEOS_Solver': Entry(points=pts1(0.05, 0.95), t=lambda rng: rng.uniform(0.05, 0.25), min_n=2),
     'Mader': Entry(points=pts1(0.1, 4.9), t=lambda rng: 6.25e-6, min_n=2),
     'Noh2': Entry(t=lambda rng: rng.uniform(0.05, 0.9)),
